@@ -26,7 +26,7 @@ RULE = ('tier A (deterministic): real RelayPool / RelayPoolClient / BlockingDequ
         'virtual clock; Hypothesis action lists over {attempt(envelope i), release client gate k with deliver / fail / fail-and-exit / crash, '
         'advance clock}; pool size in {1,2,3,None}, idle timeout in {None, delta}; invariants at every quiescent point and after a fair drain. '
         'tier B (real): StaticSmtpRelay against greenlet peers on socketpairs with generated per-stage delays, connection failures, '
-        'server-initiated 421 while idle and mid-transaction 4xx; up to 8 concurrent attempts. non-trivial = more requests than the pool size '
+        'server-initiated 421 while idle and mid-transaction 4xx; up to 8 concurrent attempts; HttpRelay against a loopback HTTP peer, including a client that fails inside a request for a reason of its own (EHLO identity callable raising once / identity that cannot be sent). non-trivial = more requests than the pool size '
         'and >=1 client exit while requests are pending (A) / >=2 messages on one connection or a failure (B); distinct = distinct case')
 ASSUMPTIONS = ['tier A clients follow the RelayPoolClient contract (poll, then set the result of the request they took)',
                'tier B runs in real time with millisecond delays; only safety invariants and a 10 s watchdog are judged']
@@ -541,8 +541,19 @@ def run_http(case):
                 pass
     server = StreamServer(('127.0.0.1', 0), handle)
     server.start()
-    relay = HttpRelay('http://127.0.0.1:%d/' % server.server_port, pool_size=case['size'], ehlo_as='relay.example', timeout=5,
-                      idle_timeout=case['idle'])
+    # the client's own failure inside a request (its EHLO identity cannot be computed / cannot be sent) must not leave the
+    # attempt waiting: `ehlo` in {None, 'raise-once' (the callable fails on its first call), 'nonlatin' (never sendable)}
+    ehlo_mode = case.get('ehlo')
+    ehlo_calls = []
+
+    def ehlo_as():
+        ehlo_calls.append(1)
+        if ehlo_mode == 'raise-once' and len(ehlo_calls) == 1:
+            raise RuntimeError('cannot determine the host name')
+        return 'h\u00f4te\u20ac.example' if ehlo_mode == 'nonlatin' else 'relay.example'
+    own_failures = 0
+    relay = HttpRelay('http://127.0.0.1:%d/' % server.server_port, pool_size=case['size'],
+                      ehlo_as=(ehlo_as if ehlo_mode else 'relay.example'), timeout=5, idle_timeout=case['idle'])
     outs = []
     desc = repr(case)
     for i in range(case['n']):
@@ -565,7 +576,9 @@ def run_http(case):
                 break
             kind, res = o.get()
             text = getattr(res, 'message', None) if kind == 'ok' else getattr(getattr(res, 'reply', None), 'message', None)
-            if kind == 'exc' and not isinstance(res, RelayError):
+            if kind == 'exc' and ehlo_mode and isinstance(res, (RuntimeError, UnicodeError)) and not isinstance(res, RelayError):
+                own_failures += 1        # the failure of the client itself is handed to the caller of this attempt: fine
+            elif kind == 'exc' and not isinstance(res, RelayError):
                 out.append(('C19:attempt-raised:%s' % type(res).__name__, '%s: %s: %r' % (desc, tag, res)))
             elif [t for t in re.findall(r'\bm\d+\b', text or '') if t != tag]:
                 out.append(('C19:result-of-another-envelope:http', '%s: attempt %s received %r' % (desc, tag, text)))
@@ -576,6 +589,8 @@ def run_http(case):
                 # (when the peer closes connections the relay keeps for re-use, a transient failure of the next request is legitimate)
                 out.append(('C19:unexplained-failure:http', '%s: attempt %s failed with %r although the peer answered it 200'
                             % (desc, tag, getattr(res, 'reply', res))))
+        if not out and ehlo_mode == 'raise-once' and own_failures > 1:
+            out.append(('C19:one-client-failure-hit-several-attempts:http', '%s: %d attempts failed' % (desc, own_failures)))
         if case['size'] and state['max'] > case['size']:
             out.append(('C19:pool-bound-exceeded:http', '%s: %d connections open at once with pool_size %d' % (desc, state['max'], case['size'])))
     finally:
@@ -584,7 +599,7 @@ def run_http(case):
             if not g.dead:
                 g.kill(block=False)
         server.stop()
-    return out, bool(case['faults']) or case['n'] > (case['size'] or 99)
+    return out, bool(case['faults']) or case['n'] > (case['size'] or 99) or bool(ehlo_mode)
 
 
 @st.composite
@@ -676,9 +691,20 @@ def run_shard(ctx):
                 if ctx.mine(k):
                     one_h({'family': 'H', 'n': 3, 'size': 1, 'idle': 1.0, 'keepalive': True, 'delay': 0.0, 'stagger': stagger,
                            'faults': {which: 'eod4xx'}, 'bodysplit': bodysplit})
+    # the client fails inside a request for a reason of its own: the attempt it was serving ends, the others are served
+    for ehlo in ('raise-once', 'nonlatin'):
+        for size in (1, 2, None):
+            for n in (1, 3):
+                for idle in (None, 1.0):
+                    k += 1
+                    if ctx.mine(k):
+                        one_h({'family': 'H', 'n': n, 'size': size, 'idle': idle, 'keepalive': True, 'delay': 0.0, 'stagger': 0.0,
+                               'faults': {}, 'bodysplit': 0, 'ehlo': ehlo})
 
 
 def replay(case):
+    if case.get('ehlo') not in (None, 'raise-once', 'nonlatin'):
+        return None            # not a case this check generates: cannot be replayed
     try:
         if case.get('family') == 'A':
             cfg = case['cfg']
